@@ -45,7 +45,7 @@ class Check(PropertyCheck):
     extra_modules = ["Model.JobTrace", "Props.C09Tree"]
     theorems = ["C09_waiting_has_waker_partial", "C09_holder_is_running", "C09_no_stuck_waiting",
                 "C09_refuted_without_recheck", "C09_witness_fixed",
-                "C09_no_lost_event", "C09_quiescent_all_settled", "C09_quiescent_nonvacuous",
+                "C09_no_lost_event", "C09_quiescent_all_settled", "C09_quiescent_every_job_settled", "C09_quiescent_nonvacuous",
                 "C09_event_lowers_potential", "C09_events_bounded", "C09_events_bounded_nonvacuous",
                 "C09_tree_steps_bounded", "C09_tree_step_decreases", "C09_tree_quiescent_settled", "C09_tree_nonvacuous",
                 "C09_fail_fast_leaves_unsettled_refuted", "C09_early_return_leaves_unsettled_refuted"]
